@@ -496,12 +496,13 @@ theorem gradStatus_value_sound : ∀ (fam : Family) (g : Geom) (c : Cond) (fd su
 set_option synthInstance.maxSize 4096 in
 set_option synthInstance.maxHeartbeats 400000 in
 /-- Where the "or is refused" clause is *not* met (the call neither returns a vector nor raises):
-    `None` only for a conditional Gaussian/GMRF/CMRF/Lognormal, a non-vector only for the 1-D `prec`
-    Gaussian and the multi-dimensional MHN.  (Recorded as known findings of the pinned code.) -/
+    `None` only for a conditional Gaussian/CMRF/Lognormal (GMRF raises since /repo commit eb9cc4c),
+    a non-vector only for the 1-D `prec` Gaussian and the multi-dimensional MHN.
+    (Recorded as known findings of the pinned code.) -/
 theorem gradStatus_not_refused_rows : ∀ (fam : Family) (g : Geom) (c : Cond) (fd sup : Bool)
     (pf : PrecForm) (dg : Bool),
     (gradStatus fam g c fd sup pf dg = .none →
-        c ≠ .no ∧ (fam = .gaussian ∨ fam = .gmrf ∨ fam = .cmrf ∨ fam = .lognormal))
+        c ≠ .no ∧ (fam = .gaussian ∨ fam = .cmrf ∨ fam = .lognormal))
       ∧ (gradStatus fam g c fd sup pf dg = .notVector →
         (fam = .gaussian ∧ pf = .precVector) ∨ (fam = .mhn ∧ dg = true)) := by
   decide +kernel
